@@ -1,6 +1,7 @@
 package dvm
 
 import (
+	"encoding/json"
 	"fmt"
 	"net/url"
 	"regexp"
@@ -10,18 +11,26 @@ import (
 	"github.com/sdcio/yang-parser/schema"
 )
 
+// Errors are decoded by their Go type and structured fields (Path, info tag) only.  The wording
+// of a message is not part of C17 / C18; it is used at most as an optional refinement that applies
+// when it matches a known pattern and is silently skipped otherwise.
+
 // Vctx is the validation context of ModelSet.Validate.
 type Vctx struct{ Inc bool }
 
 func (v Vctx) ErrorHelpText() []string    { return nil }
 func (v Vctx) AllowIncompletePaths() bool { return v.Inc }
 
-// clean makes an error text safe to travel through TLC's output (the driver greps it for "Error:").
+// clean makes an implementation text safe to travel through TLC's output: the driver greps that
+// output for "Error", so the word is broken wherever it occurs (any case), and line breaks go.
+var reErr = regexp.MustCompile(`(?i)err(or)`)
+
 func clean(s string) string {
-	return strings.ReplaceAll(strings.ReplaceAll(s, "\n", "|"), "Error:", "E:")
+	return reErr.ReplaceAllString(strings.ReplaceAll(s, "\n", "|"), "err_$1")
 }
 
-func splitPath(p string) []string {
+// splitXPath splits the rendering of an xutils.PathType ("/a/b/c", no escaping, no entry names).
+func splitXPath(p string) []string {
 	p = strings.Trim(p, "/")
 	if p == "" {
 		return []string{}
@@ -29,8 +38,9 @@ func splitPath(p string) []string {
 	return strings.Split(p, "/")
 }
 
-// splitPathExact inverts pathutil.Pathstr ("/" + escaped element, for every element), keeping
-// empty elements: the empty string is a legitimate path token (the value of type empty).
+// splitPathExact inverts pathutil.Pathstr ("/" + query-escaped element with %20 for a space, for
+// every element): the decoding of pathutil.Makepath, but empty elements are kept (the empty string
+// is a legitimate path token, the value of type empty).
 func splitPathExact(p string) []string {
 	if p == "" {
 		return []string{}
@@ -44,22 +54,30 @@ func splitPathExact(p string) []string {
 	return out
 }
 
-// PathVerdict is what ModelSet.Validate said about a path, in the terms of the spec:
-// accepted, or the 1-based index of the element the error identifies (len+1 = something
-// is missing after the last token) and that element.
+// PathVerdict is what ModelSet.Validate said about a path: accepted, or how the structured error
+// identifies an element:
+//
+//	form "unknown"  UnknownElement error: Path = the elements before the offending one, info tag = it
+//	form "value"    InvalidValue error: Path ends with the offending value - or, when Path is the
+//	                whole input, possibly a value is missing after it (same type, same fields);
+//	                MV is the optional refinement: the message is the one of the code's own
+//	                schema.NewMissingValueError, so it is the missing-value reading
+//	form "missing"  MissingElement error: Path = the whole input, something is missing after it
+//	form "other"    any other error: identifies nothing
 type PathVerdict struct {
-	Ok   bool   `json:"ok"`
-	At   int    `json:"at"`
-	Tok  string `json:"tok"`  // the token the error names ("" when something is missing)
-	Form string `json:"form"` // how the error identified it (diagnostic only)
-	Err  string `json:"err"`
+	Ok    bool     `json:"ok"`
+	Form  string   `json:"form"`
+	Epath []string `json:"epath"` // decoded Path of the error
+	Tok   string   `json:"tok"`   // info tag of an unknown-element error
+	MV    bool     `json:"mv"`
+	Err   string   `json:"err"`
 }
 
 var missingValueMsg = func() string {
 	if e, ok := schema.NewMissingValueError(nil).(*mgmterror.InvalidValueApplicationError); ok {
 		return e.Message
 	}
-	return "Node requires a value"
+	return "\x00"
 }()
 
 // ValidatePath runs the real path validation under a panic trap and decodes the error.
@@ -73,90 +91,132 @@ func ValidatePath(ms schema.ModelSet, p []string, inc bool) (v PathVerdict) {
 		}()
 		err = ms.Validate(Vctx{inc}, nil, append([]string{}, p...))
 	}()
+	v.Epath = []string{}
 	if err == nil {
-		return PathVerdict{Ok: true}
+		v.Ok = true
+		return v
 	}
 	v.Err = clean(err.Error())
 	switch e := err.(type) {
 	case *mgmterror.UnknownElementApplicationError:
-		// Path = the elements before the offending one, info = the offending element
-		v.At = len(splitPathExact(e.Path)) + 1
+		v.Form = "unknown"
+		v.Epath = splitPathExact(e.Path)
 		if len(e.Info) > 0 {
 			v.Tok = e.Info[0].Value
 		}
-		v.Form = "unknown-element"
 	case *mgmterror.InvalidValueApplicationError:
-		pp := splitPathExact(e.Path)
-		if e.Message == missingValueMsg {
-			v.At = len(pp) + 1
-			v.Form = "missing-value"
-		} else {
-			v.At = len(pp)
-			if len(pp) > 0 {
-				v.Tok = pp[len(pp)-1]
-			}
-			v.Form = "invalid-value"
-		}
+		v.Form = "value"
+		v.Epath = splitPathExact(e.Path)
+		v.MV = e.Message == missingValueMsg
 	case *mgmterror.MissingElementApplicationError:
-		v.At = len(splitPathExact(e.Path)) + 1
-		v.Form = "missing-element"
+		v.Form = "missing"
+		v.Epath = splitPathExact(e.Path)
 	default:
-		v.At = -1
-		v.Form = fmt.Sprintf("%T", err)
+		v.Form = "other"
 	}
 	return v
 }
 
-// Viol is one violation of the structural constraints, in the terms of the spec:
-// k = missing (mandatory leaf, or list / leaf-list with min-elements, absent),
-// choice (mandatory choice without an active case), count (min-/max-elements),
-// unique; n = the schema node concerned ("" for a choice: the error does not name it);
-// path = data path of the existing ancestor (through non-presence containers).
-// A cardinality error carries the schema path (no list entry names): sp in the spec.
-type Viol struct {
-	K    string   `json:"k"`
-	N    string   `json:"n"`
-	Path []string `json:"path"`
-	Sp   []string `json:"sp,omitempty"`
+func isPrefix(a, p []string) bool {
+	if len(a) > len(p) {
+		return false
+	}
+	for i := range a {
+		if a[i] != p[i] {
+			return false
+		}
+	}
+	return true
 }
 
+// Ats: the positions (1-based, len(p)+1 = after the end) the error may be read as identifying, or
+// nil when its decoded path is not the input's own prefix / its info tag is not the input's token.
+// The same rule is written in SchemaPathTrace (Identifies).
+func (v PathVerdict) Ats(p []string) []int {
+	l := len(v.Epath)
+	if !isPrefix(v.Epath, p) {
+		return nil
+	}
+	switch v.Form {
+	case "unknown":
+		if l < len(p) && v.Tok == p[l] {
+			return []int{l + 1}
+		}
+	case "missing":
+		if l == len(p) {
+			return []int{l + 1}
+		}
+	case "value":
+		switch {
+		case l == len(p) && v.MV:
+			return []int{l + 1}
+		case l == len(p) && l > 0:
+			return []int{l, l + 1}
+		case l == len(p):
+			return []int{l + 1}
+		case l > 0:
+			return []int{l}
+		}
+	}
+	return nil
+}
+
+// Viol is one violation of the structural constraints.  In a vector (written by the spec):
+// k = missing | choice | count | unique, n = the schema node, path = data path of the parent
+// (existing ancestor + non-presence containers looked through), sp = the same without list
+// entry names, u = which unique statement / value tuple.  Decoded from an error:
+// t = the error's type class and path as the error carries it; k, n only when the optional
+// message refinement applied.
+type Viol struct {
+	K    string          `json:"k"`
+	N    string          `json:"n"`
+	Path []string        `json:"path"`
+	Sp   []string        `json:"sp,omitempty"`
+	U    json.RawMessage `json:"u,omitempty"`
+	T    string          `json:"t,omitempty"` // decoded errors: exec | count | other
+}
+
+// Key: how an error can identify a violation by type and path alone.  missing / choice: an
+// ExecError at the parent's path; unique: an ExecError at the list's path; count: a
+// TooFew / TooManyElements error at the list's schema path.
+func (v Viol) Key() string {
+	if v.T != "" { // decoded
+		return v.T + "|" + strings.Join(v.Path, "/")
+	}
+	switch v.K {
+	case "unique":
+		return "exec|" + strings.Join(append(append([]string{}, v.Path...), v.N), "/")
+	case "count":
+		return "count|" + strings.Join(append(append([]string{}, v.Sp...), v.N), "/")
+	}
+	return "exec|" + strings.Join(v.Path, "/")
+}
+
+// Known wordings (optional refinement; an unknown wording leaves K empty).
 var (
 	reMissing = regexp.MustCompile(`^Missing mandatory node (\S+)$`)
 	reChoice  = regexp.MustCompile(`^Missing mandatory node requires one of `)
-	reCount   = regexp.MustCompile(`^Invalid number of nodes: `)
 	reUnique  = regexp.MustCompile(`^The following (path|set of paths) must be unique:`)
 )
 
-// DecodeViol maps one error of ValidateSchema to the spec's terms.
+// DecodeViol maps one error of ValidateSchema to type class and path.
 func DecodeViol(err error) Viol {
 	switch e := err.(type) {
 	case *mgmterror.ExecError:
-		p := splitPath(e.Path)
+		v := Viol{T: "exec", Path: splitPathExact(e.Path)}
 		switch {
 		case reChoice.MatchString(e.Message):
-			return Viol{K: "choice", N: "", Path: p}
+			v.K = "choice"
 		case reMissing.MatchString(e.Message):
-			return Viol{K: "missing", N: reMissing.FindStringSubmatch(e.Message)[1], Path: p}
+			v.K, v.N = "missing", reMissing.FindStringSubmatch(e.Message)[1]
 		case reUnique.MatchString(e.Message):
-			if len(p) == 0 {
-				return Viol{K: "unique", N: "", Path: p}
-			}
-			return Viol{K: "unique", N: p[len(p)-1], Path: p[:len(p)-1]}
+			v.K = "unique"
 		}
+		return v
 	case *mgmterror.TooFewElementsError:
-		if reCount.MatchString(e.Message) {
-			p := splitPath(e.Path)
-			if len(p) > 0 {
-				return Viol{K: "count", N: p[len(p)-1], Path: p[:len(p)-1]}
-			}
-		}
+		return Viol{T: "count", Path: splitXPath(e.Path)}
 	case *mgmterror.TooManyElementsError:
-		if reCount.MatchString(e.Message) {
-			p := splitPath(e.Path)
-			if len(p) > 0 {
-				return Viol{K: "count", N: p[len(p)-1], Path: p[:len(p)-1]}
-			}
-		}
+		return Viol{T: "count", Path: splitXPath(e.Path)}
 	}
-	return Viol{K: "other", N: fmt.Sprintf("%T: %s", err, clean(err.Error())), Path: []string{}}
+	return Viol{T: "other", N: fmt.Sprintf("%T", err), Path: []string{}}
 }
